@@ -619,6 +619,27 @@ func (m *Model) Dump(dbi int, now time.Time) []string {
 	return out
 }
 
+// DumpDeadlines is Dump plus each key's deadline (state equality for history
+// checking must tell two keyspaces apart that differ only in a deadline).
+func (m *Model) DumpDeadlines(dbi int) []string {
+	d := m.DBs[dbi]
+	keys := make([]string, 0, len(d.Keys))
+	for k := range d.Keys {
+		keys = append(keys, k)
+	}
+	sort.Strings(keys)
+	out := make([]string, 0, len(keys))
+	for _, k := range keys {
+		e := d.Keys[k]
+		s := strconv.Quote(k) + " " + e.dump()
+		if e.HasTTL {
+			s += " deadline=" + strconv.FormatInt(e.WinLo.UnixNano(), 10) + ".." + strconv.FormatInt(e.WinHi.UnixNano(), 10)
+		}
+		out = append(out, s)
+	}
+	return out
+}
+
 func (e *Entry) dump() string {
 	q := func(b []byte) string { return strconv.Quote(string(b)) }
 	switch e.T {
